@@ -273,7 +273,13 @@ pub fn run_chunk(prop: &str, batch_seed: u64, from: u64, to: u64, fixed_family: 
             st.samples.push(sample_json(&rec, i));
         }
         for v in crate::oracle::check_all(&d) {
-            if !counts_for(p, &v, fam) {
+            // a deadlock that matches no recorded finding stops the store for good: whatever the
+            // property under check promises for the actions in flight fails with it
+            let foreign_deadlock = v.prop == "C13" && v.clause == "deadlock" && p.id != "C13";
+            if foreign_deadlock && v.known.is_some() {
+                continue;
+            }
+            if !foreign_deadlock && !counts_for(p, &v, fam) {
                 *st.other_props_seen.entry(v.prop.to_string()).or_default() += 1;
                 continue;
             }
